@@ -21,6 +21,9 @@ OPTS = {'quick': dict(witnesses_per_case=3, budget_s=900), 'thorough': dict(witn
 F = Fraction
 
 
+SKEL5 = {'double_diamond': [(0, 1), (1, 2), (0, 2), (0, 3), (3, 4), (2, 4)], 'house': [(0, 1), (1, 2), (2, 3), (3, 0), (2, 4), (3, 4)]}
+
+
 def cases(tier, seed):
     q = tier != 'thorough'
     cs = []
@@ -31,6 +34,11 @@ def cases(tier, seed):
         cs.append(dict(name='%s/n3dir' % fn, fn=fn, kind='wei', n=3, weight=300, shard_depth=6))
         cs.append(dict(name='%s/n4und_ring' % fn, fn=fn, kind='wei', n=4, undirected=True, absent=[[0, 2], [1, 3]], weight=300, shard_depth=6))
         cs.append(dict(name='%s/n4und_diamond' % fn, fn=fn, kind='wei', n=4, undirected=True, absent=[[1, 3]], weight=900, shard_depth=8))
+        # 5-node sparse skeletons (present cells listed; everything else absent): merging bundles of shortest paths with different
+        # multiplicities need five or more nodes
+        for nm, edges in (SKEL5.items() if not q else ()):
+            absent = [[a, b] for a in range(5) for b in range(a + 1, 5) if (a, b) not in edges and (b, a) not in edges]
+            cs.append(dict(name='%s/n5und_%s' % (fn, nm), fn=fn, kind='wei', n=5, undirected=True, absent=absent, all_present=True, weight=1500, shard_depth=8))
         if not q: cs.append(dict(name='%s/n4und' % fn, fn=fn, kind='wei', n=4, undirected=True, weight=6000, shard_depth=10))
     for fn in ('betweenness_bin', 'edge_betweenness_bin'):
         cs.append(dict(name='%s/n3dir' % fn, fn=fn, kind='bin', n=3, weight=100, shard_depth=4))
@@ -95,7 +103,7 @@ def body_wei(case, M):
         for b in range(n):
             if a == b or (und and b < a): continue
             if [a, b] in case.get('absent', []) or [b, a] in case.get('absent', []): continue
-            W[a][b] = M.real('w_%d_%d' % (a, b), lo=0, hi=8)
+            W[a][b] = M.real('w_%d_%d' % (a, b), lo=0, hi=8, lo_open=bool(case.get('all_present')))
             if und: W[b][a] = W[a][b]
     A = M.array(W, 'f')
     cen = M.mod('centrality')
